@@ -56,7 +56,11 @@ func (c *simConn) markErr() {
 	c.mu.Lock()
 	c.sawError = true
 	c.mu.Unlock()
+	lastTransportErrUs = c.k.nowUs()
 }
+
+// lastTransportErrUs: last time any client Read/Write/Dial returned an error.
+var lastTransportErrUs int64 = -1
 
 func (c *simConn) signal() {
 	select {
@@ -115,6 +119,7 @@ func (c *simConn) Write(p []byte) (int, error) {
 		}
 		if c.reset {
 			c.mu.Unlock()
+			c.markErr()
 			return 0, &net.OpError{Op: "write", Net: "tcp", Err: syscall.EPIPE}
 		}
 		if !c.stall {
@@ -128,6 +133,7 @@ func (c *simConn) Write(p []byte) (int, error) {
 		}
 		d := time.Until(dl)
 		if d <= 0 {
+			c.markErr()
 			return 0, &net.OpError{Op: "write", Net: "tcp", Err: os.ErrDeadlineExceeded}
 		}
 		t := time.NewTimer(d)
@@ -236,6 +242,7 @@ func (d *dialer) Dial(network, a string) (net.Conn, error) {
 	if br == nil {
 		time.Sleep(lat)
 		cl.k.logf("dial %s: no such host", a)
+		lastTransportErrUs = cl.k.nowUs()
 		if cl.onDialFail != nil {
 			cl.onDialFail()
 		}
@@ -252,6 +259,7 @@ func (d *dialer) Dial(network, a string) (net.Conn, error) {
 		R.fired("dial-timeout")
 		time.Sleep(to)
 		cl.k.logf("dial %s: timeout", a)
+		lastTransportErrUs = cl.k.nowUs()
 		if cl.onDialFail != nil {
 			cl.onDialFail()
 		}
@@ -261,6 +269,7 @@ func (d *dialer) Dial(network, a string) (net.Conn, error) {
 	if !up {
 		R.fired("refuse")
 		cl.k.logf("dial %s: refused", a)
+		lastTransportErrUs = cl.k.nowUs()
 		if cl.onDialFail != nil {
 			cl.onDialFail()
 		}
